@@ -31,7 +31,7 @@ PROPS = {
                 not_covered=NOT_GEN + '; the unchecked LinkedBytes writer is decided only for the ORDER of operations in write_faststr / write_bytes / write_bytes_without_len (zero-copy branch) over assumed contracts of its raw-store primitives (unit unsafe_lb); its primitives, write_message_begin and write_field_begin (raw stores) are not decided'),
     'C03': dict(verus=THRIFT_UNITS, kani=K_SUPPORT, assumptions=A_COMMON,
                 not_covered=NOT_GEN + '; ApplicationException::{encode,decode} not yet under contract'),
-    'C04': dict(verus=THRIFT_UNITS, kani=K_C11_W, assumptions=A_COMMON,
+    'C04': dict(verus=THRIFT_UNITS + ['unsafe_lb'], kani=K_C11_W, assumptions=A_COMMON,
                 not_covered=NOT_GEN + '; TLengthProtocolExt/TOutputProtocolExt closure helpers (field_len!, list_len, write_list, ...) not under contract; TLengthProtocol of TCompactInputProtocol not under contract'),
     'C05': dict(verus=['prost'], kani=K_PB + K_PB_MORE, assumptions=A_COMMON[:1] + ['bytes 1.8.0 Buf for &[u8] / BufMut for &mut [u8] are exercised as compiled (not assumed)', 'format! on error paths is stubbed in the Kani harnesses (message text not modelled)'],
                 not_covered='generated messages; repeated/packed/map/message/group/string/bytes codecs are not yet under a harness'),
